@@ -192,7 +192,7 @@ def io_item(draw, kind):
     elif kind == 'ImageIn':
         uri = draw(st.sampled_from(['file:///imgs', 'file://rel/dir', 's3://bucket/prefix', 'gs://bucket/p']))
         pool = [('loop', st.one_of(st.booleans(), st.integers(0, 5))), ('recursive', st.booleans()), ('pattern', st.sampled_from(['*.jpg', 'img_*.png'])),
-                ('region', st.sampled_from(['us-west-2'])), ('maxfps', st.integers(1, 30))]
+                ('region', st.sampled_from(['us-west-2'])), ('maxfps', st.integers(1, 30)), ('poll_interval', st.integers(1, 60))]     # poll_interval: documented as settable per source, used in three docstring examples
         field = 'source'
     else:
         uri = draw(st.sampled_from(['file:///out/f_%Y%m%d.jpg', 'file://rel/o.png', 'file:///o/frame_{frame_number}.jpg']))
